@@ -13,7 +13,7 @@ R13.5 mask cursor inside the v1 page loop advances by the rows of the page.
 """
 import ast
 
-from ..model import AnalysisError, callee, norm, src, walk_no_nested, iter_child_stmts, module_table, kwarg, before
+from ..model import AnalysisError, callee, norm, src, walk_no_nested, iter_child_stmts, module_table, kwarg, before, resolved
 from ..cfg import CFG
 from ..symwalk import Walker, State, Lin, Obj
 
@@ -339,7 +339,8 @@ def r135(ctx):
     for c in ast.walk(blk):
         if isinstance(c, ast.Continue):
             tests = [e.test for e, fld in cfg.enclosing_tests(c) if isinstance(e, ast.If) and e is not blk and any(e is y for y in ast.walk(blk))]
-            on_mask = any('row_filter' in norm(t) for t in tests)
+            # (a temporary holding the page's slice of the mask is looked through)
+            on_mask = any('row_filter' in resolved(f, t, depth=1) for t in tests)
             on_vals = [norm(t) for t in tests if any(isinstance(x, ast.Name) and x.id == 'val' for x in ast.walk(t))]
             ctx.ob('R13.5', 'core.read_col:page-skipped-only-when-the-mask-selects-none-of-its-rows', on_mask and not on_vals,
                    'guards of the skip: %s' % [norm(t) for t in tests], m.loc(c))
